@@ -131,3 +131,25 @@ Definition clayton_xderiv2 (theta eta u v : R) : R :=
   let factor := if Rleb 0 (u * v) then eta else - (1 - eta) in
   (1 * (1 + theta)) * factor * (Rpower (Rabs (u * v)) (- theta - 1)
      * Rpower (Rpower (Rabs u) (- theta) + Rpower (Rabs v) (- theta)) (- 1 / theta - 2)).
+
+(* ---- what "is a Levy copula" means for a function on extended reals (d = 2, 3) ------------------
+   grounded, d-increasing, uniform one-dimensional margins (computed by `margin` as the code does).
+   The increasing clause is about rectangles (u1,u2] x ... of (-inf, inf]^d with at least one side
+   finite at both ends: then no corner has all entries infinite (where the code's values are +-inf/nan
+   and the models do not apply). *)
+Definition finite_side (u1 u2 : ext R) : bool := is_fin RNum u1 && is_fin RNum u2.
+
+Definition copula2_ok (cop : list (ext R) -> R) : Prop :=
+  (forall v, cop [Fin 0; v] = 0 /\ cop [v; Fin 0] = 0) /\
+  (forall u1 u2 v1 v2, @xleb RNum u1 u2 = true -> @xleb RNum v1 v2 = true ->
+     (finite_side u1 u2 || finite_side v1 v2)%bool = true ->
+     0 <= cop [u2; v2] - cop [u2; v1] - cop [u1; v2] + cop [u1; v1]) /\
+  (forall u : R, margin RNum cop [0%nat] 2 [Fin u] = u /\ margin RNum cop [1%nat] 2 [Fin u] = u).
+
+Definition copula3_ok (cop : list (ext R) -> R) : Prop :=
+  (forall u v, cop [Fin 0; u; v] = 0 /\ cop [u; Fin 0; v] = 0 /\ cop [u; v; Fin 0] = 0) /\
+  (forall u1 u2 v1 v2 w1 w2, @xleb RNum u1 u2 = true -> @xleb RNum v1 v2 = true -> @xleb RNum w1 w2 = true ->
+     (finite_side u1 u2 || finite_side v1 v2 || finite_side w1 w2)%bool = true ->
+     0 <= cop [u2; v2; w2] - cop [u2; v2; w1] - cop [u2; v1; w2] + cop [u2; v1; w1]
+          - cop [u1; v2; w2] + cop [u1; v2; w1] + cop [u1; v1; w2] - cop [u1; v1; w1]) /\
+  (forall u : R, margin RNum cop [0%nat] 3 [Fin u] = u /\ margin RNum cop [1%nat] 3 [Fin u] = u /\ margin RNum cop [2%nat] 3 [Fin u] = u).
